@@ -11,7 +11,6 @@
 package fakereg13
 
 import (
-	"bytes"
 	"encoding/json"
 	"fmt"
 	"io"
@@ -114,6 +113,15 @@ type Registry struct {
 	CurOp int
 	N     int
 	Log   []Exchange
+
+	// WarnEvery > 0: every WarnEvery-th response carries Warning headers; the texts of the
+	// well-formed ones (299 - "text") are recorded in SentWarnings.
+	WarnEvery    int
+	SentWarnings []string
+
+	// BlobModes: behaviour of the successful blob GET bodies, cycled (see bodyMode)
+	BlobModes  []BodyMode
+	blobBodies int
 }
 
 func New(main, other string, p Profile) *Registry {
@@ -445,10 +453,51 @@ func (g *Registry) abstract(req *http.Request, body []byte) (Request, bool) {
 	return q, true
 }
 
-type body struct{ r *bytes.Reader }
+// BodyMode is how a response body hands out its bytes: at most Chunk bytes per Read call
+// (0 = no limit) and the last bytes either together with io.EOF in one call (EOFWithData,
+// what net/http does for a Content-Length body) or followed by a separate (0, io.EOF).
+type BodyMode struct {
+	Chunk       int
+	EOFWithData bool
+}
 
-func (b *body) Read(p []byte) (int, error) { return b.r.Read(p) }
-func (b *body) Close() error               { return nil }
+type body struct {
+	b    []byte
+	i    int
+	mode BodyMode
+}
+
+func (r *body) Read(p []byte) (int, error) {
+	if r.i >= len(r.b) {
+		return 0, io.EOF
+	}
+	n := len(p)
+	if r.mode.Chunk > 0 && n > r.mode.Chunk {
+		n = r.mode.Chunk
+	}
+	n = copy(p[:n], r.b[r.i:])
+	r.i += n
+	if r.mode.EOFWithData && n > 0 && r.i >= len(r.b) {
+		return n, io.EOF
+	}
+	return n, nil
+}
+func (r *body) Close() error { return nil }
+
+// bodyMode picks the behaviour of the next body: BlobModes (cycled over the successful blob
+// GET bodies, the ones a readSeekCloser reads) when set, else a rotation over all behaviours.
+func (g *Registry) bodyMode(req *http.Request, r Response) BodyMode {
+	if len(g.BlobModes) > 0 {
+		if req.Method == "GET" && (r.Status == 200 || r.Status == 206) && strings.Contains(req.URL.Path, "/blobs/sha") {
+			m := g.BlobModes[g.blobBodies%len(g.BlobModes)]
+			g.blobBodies++
+			return m
+		}
+		return BodyMode{}
+	}
+	all := []BodyMode{{0, false}, {0, true}, {3, false}, {2, true}, {1, true}, {7, false}}
+	return all[(g.N+len(r.Body))%len(all)]
+}
 
 func (g *Registry) path(l Loc) string {
 	base := "/v2/" + l.Repo
@@ -513,7 +562,7 @@ func (g *Registry) concrete(req *http.Request, r Response) *http.Response {
 	if req.Method == "HEAD" {
 		b = nil
 	}
-	resp.Body = &body{bytes.NewReader(b)}
+	resp.Body = &body{b: b, mode: g.bodyMode(req, r)}
 	return resp
 }
 
@@ -546,7 +595,20 @@ func (g *Registry) Do(req *http.Request) (*http.Response, error) {
 	}
 	g.N++
 	g.Log = append(g.Log, Exchange{Op: g.CurOp, Q: q, R: r, Bad: bad, Hit: hit})
-	return g.concrete(req, r), nil
+	resp := g.concrete(req, r)
+	if g.WarnEvery > 0 && g.N%g.WarnEvery == 0 {
+		t1 := fmt.Sprintf("verif warning %d", g.N)
+		resp.Header.Add("Warning", fmt.Sprintf("299 - %q", t1))
+		resp.Header.Add("Warning", `199 - "not a 299 warning"`)
+		resp.Header.Add("Warning", `299 registry "named agent"`)
+		g.SentWarnings = append(g.SentWarnings, t1)
+		if g.N%2 == 0 {
+			t2 := fmt.Sprintf("second \"quoted\" %d", g.N)
+			resp.Header.Add("Warning", fmt.Sprintf("299 - %q", t2))
+			g.SentWarnings = append(g.SentWarnings, t2)
+		}
+	}
+	return resp, nil
 }
 
 // ---------- printing (must equal ml/c13_main.ml) ----------
@@ -734,7 +796,9 @@ func SpecCheck(req *http.Request, body []byte, scheme, host string) string {
 		}
 		return ""
 	case spRefs.MatchString(p):
-		if req.Method != "GET" || !nobody || rng != "" || !only("artifactType") {
+		// n: oras-go's ReferrerListPageSize (the tag-list style page size; registries without
+		// referrers pagination ignore it)
+		if req.Method != "GET" || !nobody || rng != "" || !only("artifactType", "n") {
 			return "referrers request"
 		}
 		return ""
